@@ -612,12 +612,7 @@ package bus
 //@   trusted
 //@   modifies c.*
 //@   ensures err == nil ==> cancel != nil
-//@ func (p *proxyObject) RegisterEvent(objectID uint32, actionID uint32, handler uint64) (result uint64, err error)
-//@   trusted
-//@   modifies everything
-//@ func (p *proxyObject) UnregisterEvent(objectID uint32, actionID uint32, handler uint64) (err error)
-//@   trusted
-//@   modifies everything
+// (proxyObject.RegisterEvent / UnregisterEvent: verified contracts in zz_contracts_proxy_verif.go)
 // (also C14: property change events reach subscribers through the same registration bookkeeping)
 //@ func (p proxy) SubscribeID(action uint32) (cancelfn func(), events chan []byte, err error)
 //@   tags C13 C14
@@ -714,6 +709,24 @@ package bus
 //@   loop 1:
 //@     invariant !o.signalsMutex.lockw && o.signalsMutex.lockr == 1 && o.signals == at_lock(o.signals)
 //@     invariant forall k int {o.signals[k]} :: 0 <= k && k <= rangeindex && k < len(o.signals) ==> o.signals[k].userID != userID
+
+// The connection handler a registration installs: its filter never selects a message and never
+// removes itself; its closer (run when the handler leaves the connection's table: unregistration or
+// connection loss) removes exactly the registration it was installed for - (user id, connection) -
+// through removeSignalUser, and does not touch the subscriber table in any other way (a Lock call
+// site in the closer is a failing obligation), so one subscriber leaving does not disturb the others.
+//@ func (o *signalHandler) addSignalUser$1(hdr *net.Header) (matched bool, keep bool)
+//@   tags C13
+//@   pure
+//@   ensures[C13] !matched && keep
+//@ func (o *signalHandler) addSignalUser$2(err error)
+//@   tags C13 C12
+//@   requires from != nil && !o.signalsMutex.lockw && o.signalsMutex.lockr == 0
+//@   modifies everything
+//@   call removeSignalUser#1: assert[C13] arg0 == userID && arg1 == from
+//@   call Lock#1: assert[C13] false
+//@   call RLock#1: assert[C13] false
+//@   ensures[C13,C12] !o.signalsMutex.lockw && o.signalsMutex.lockr == 0
 
 // RegisterEvent / UnregisterEvent: every request gets exactly one answer (reply or error); a
 // payload that cannot be decoded is answered with an error without touching the table.
